@@ -39,6 +39,7 @@ META = {
              'select/selectBy x filter x order spec x reversed x distinct x chained ops x list/count/sum/min/max/avg/getOne, alternate-id and '
              'unique-index lookups with present and absent keys; filters with the `&`/`|` operators and nested AND()/OR() calls of 1..5 operands; '
              'explicit primary keys at the edge of the key domain: 0, negatives, and a string-primary-key class with "" and other strings; '
+             'order specifications with several keys given as lists and as tuples (select(orderBy=), .orderBy(), sqlmeta.defaultOrder), '
              'classes with defaultOrder, cacheValues=False; explicit connection=, lazyColumns), re-checked after interleaved inserts, updates and deletes, '
              'a pool of SelectResults OBJECTS being kept and asked again (count, iteration, aggregates, getOne) after the mutations; seeded random after a '
              'hand-written corpus; distinct = distinct (table contents, query); non-trivial = the query has a filter, an order, distinct, '
@@ -100,12 +101,14 @@ def env():
             'fk': ForeignKey('C11Oth', default=None), 'alt': IntCol(alternateID=True),
             'p': IntCol(default=None), 'pIdx': DatabaseIndex('p', 'fk', unique=True)})
     classes = {'row': mk('C11Row', None), 'dfl': mk('C11Dfl', '-bVal'), 'dfm': mk('C11Dfm', ['s', '-id']),
-               'str': mk('C11Str', None, str), 'ncv': mk('C11Ncv', None, int, False)}
+               'str': mk('C11Str', None, str), 'ncv': mk('C11Ncv', None, int, False),
+               'dft': mk('C11Dft', ('-s', 'bVal'))}
     C11Oth.createTable()
     for c in classes.values():
         c.createTable()
     _env.update(conn=conn, Oth=C11Oth, classes=classes, LogConn=LogConn,
-                default={'row': None, 'dfl': ['one', ['s', '-bVal']], 'dfm': ['many', [['s', 's'], ['s', '-id']]], 'str': None, 'ncv': None})
+                default={'row': None, 'dfl': ['one', ['s', '-bVal']], 'dfm': ['many', [['s', 's'], ['s', '-id']]], 'str': None, 'ncv': None,
+                         'dft': ['tuple', [['s', '-s'], ['s', 'bVal']]]})
     return _env
 
 
@@ -157,7 +160,7 @@ def enc_order(o):
         return 'none'
     if o[0] == 'one':
         return 'one=' + enc_arg(o[1])
-    return 'many=' + ';'.join(enc_arg(a) for a in o[1])
+    return ('tuple=' if o[0] == 'tuple' else 'many=') + ';'.join(enc_arg(a) for a in o[1])
 
 
 def enc_kwval(v):
@@ -332,7 +335,8 @@ def build_order(cls, o):
         return None
     if o[0] == 'one':
         return build_arg(cls, o[1])
-    return [build_arg(cls, a) for a in o[1]]
+    keys = [build_arg(cls, a) for a in o[1]]
+    return tuple(keys) if o[0] == 'tuple' else keys
 
 
 def build_kw(cls, kw):
@@ -790,7 +794,7 @@ def gen_table(rng, n=None):
             else:
                 used.add((p, fk))
         rows.append([a, b, s, fk, alts[i], p])
-    cls_key = rng.choice(['row', 'row', 'dfl', 'dfm', 'str', 'str', 'ncv'])
+    cls_key = rng.choice(['row', 'row', 'dfl', 'dfm', 'dft', 'str', 'str', 'ncv'])
     tbl = {'cls': cls_key, 'dom': dom, 'rows': rows, 'oth': oth}
     # explicit primary keys at the edge of the key domain: 0, negatives; '' and other strings for the str class
     if cls_key == 'str':
@@ -865,7 +869,7 @@ def gen_arg(rng, table, malformed=False):
 def gen_order(rng, table, malformed=False):
     r = rng.random()
     if malformed and r < 0.3:
-        return ['many', []]
+        return [rng.choice(['many', 'tuple']), []]
     if r < 0.12:
         return 'nodefault'
     if r < 0.2:
@@ -873,7 +877,8 @@ def gen_order(rng, table, malformed=False):
     if r < 0.5:
         return ['one', gen_arg(rng, table, malformed)]
     n = rng.choice([1, 2, 2, 2, 3, 3, 4])
-    return ['many', [gen_arg(rng, table, malformed) for _ in range(n)]]
+    # several keys come as a list or as a tuple
+    return [rng.choice(['many', 'tuple']), [gen_arg(rng, table, malformed) for _ in range(n)]]
 
 
 def gen_kw(rng, tbl, n_oth_ids, malformed=False):
